@@ -172,6 +172,10 @@ var c15Macros = []c15Macro{
 	{"[& r]", "(list ~@r)", func(a []string) string { return "(list " + strings.Join(a, " ") + ")" }, 0},
 	{"[p]", "(+ w ~p)", func(a []string) string { return "(+ w " + a[0] + ")" }, 1}, // non-hygienic: w is the caller's
 	{"[p & r]", "(and ~p ~@r)", func(a []string) string { return "(and " + a[0] + " " + strings.Join(a[1:], " ") + ")" }, 2},
+	// expansions that jump: they only compile inside a loop (sites 3 and 6)
+	{"[p]", "(cond ~p (break) nil)", func(a []string) string { return "(cond " + a[0] + " (break) nil)" }, 1},
+	{"[p]", "(cond ~p (continue) nil)", func(a []string) string { return "(cond " + a[0] + " (continue) nil)" }, 1},
+	{"[p q]", "(let [jj ~q] (and ~p (break)))", func(a []string) string { return "(let [jj " + a[1] + "] (and " + a[0] + " (break)))" }, 2},
 }
 
 func init() {
@@ -179,7 +183,7 @@ func init() {
 		ID:    "C15",
 		Level: "exploration",
 		Rule: "(1) random syntax-quote templates: nests (depth<=4) of lists, arrays and hash literals with ~x, ~(expr), (unquote x), ~@xs, ~@(expr) at every position (first, last, adjacent splices, empty and one-element splices, splices into arrays), bindings to scalars, strings, lists, nested lists and arrays; the value of ^template is compared structurally with an independent substitution function over the same AST. " +
-			"(2) macros: ten code templates (fixed and & rest parameters, splices in call, begin, let, cond, array, list, for, and forms) called with effectful arguments at top level, inside functions, loops, lets and inside another macro's template; value and effect trace must equal those of the hand-written expansion evaluated in a twin interpreter in the same scope (non-hygienic by design), and (macexpand …) must print the model's expansion. " +
+			"(2) macros: thirteen code templates (fixed and & rest parameters, splices in call, begin, let, cond, array, list, for, and forms, and expansions that break / continue out of the caller's loop) called with effectful arguments at top level, inside functions, loops, lets, below let+newScope inside a loop (with the names read again afterwards) and inside another macro's template; value and effect trace must equal those of the hand-written expansion evaluated in a twin interpreter in the same scope (non-hygienic by design), and (macexpand …) must print the model's expansion. " +
 			"(3) expanding (macexpand and compile-time expansion) must leave the caller's stack depths, its set of global names and the printed values of all its globals unchanged. non-trivial = distinct template with >=1 splice and >=1 nested container, or a macro call site below a function/loop/let",
 		Assumptions: []string{
 			"a hash literal inside a template denotes the list (hash k v …) as on the unchanged tree; the long spelling (unquote-splicing …) is not generated (it is lexed as three symbols)",
@@ -278,7 +282,10 @@ func c15MacroCase(c *core.Ctx, i int) *core.Result {
 	}
 	hand := strings.Join(strings.Fields(mc.expand(args)), " ")
 	hand = strings.NewReplacer("( ", "(", " )", ")", "[ ", "[", " ]", "]").Replace(hand)
-	site := r.N(6)
+	site := r.N(7)
+	if mi >= 10 && site != 3 && site != 6 { // jumping expansions need a loop around them
+		site = 3 + 3*r.N(2)
+	}
 	wrap := func(body string) string {
 		switch site {
 		case 1:
@@ -289,6 +296,8 @@ func c15MacroCase(c *core.Ctx, i int) *core.Result {
 			return "(def out 0) (for [(def k 0) (< k 2) (def k (+ k 1))] (set out " + body + ")) out"
 		case 4:
 			return "((fn [w] (newScope " + body + ")) 8)"
+		case 6: // below let and newScope inside a loop; names read again after the loop
+			return "(def out 0) (for [(def k 0) (< k 3) (def k (+ k 1))] (let [w (+ k 10)] (newScope (set out (+ out w)) " + body + " (set out (+ out 100))))) (list out w acc)"
 		case 5: // inside another macro's template
 			return "(defmac outer [z] ^(list ~z " + body + ")) (outer (tr 7 1))"
 		}
